@@ -63,14 +63,18 @@ def gen_option(r):
         val = s.encode("utf8")
     elif kind == "uint":
         num = r.choice(UINT_OPTS)
-        v = r.choice([0, 1, 255, 256, 65535, 65536, 2 ** 24 - 1, 2 ** 32 - 1, r.randrange(0, 2 ** 32)])
+        # (RFC 7252 section 3.2 gives uint values no maximum width; option definitions do, but the codec carries whatever
+        # it is given: values of nine and more bytes included)
+        v = r.choice([0, 1, 255, 256, 65535, 65536, 2 ** 24 - 1, 2 ** 32 - 1, r.randrange(0, 2 ** 32), 2 ** 32, 2 ** 40 - 1,
+                      2 ** 63, 2 ** 64 - 1, 2 ** 64, 2 ** 64 + 1, 2 ** 72 - 1, r.randrange(2 ** 64, 2 ** 96)])
         val = rc.uint_bytes(v)
     elif kind == "opaque":
         num = r.choice(OPAQUE_OPTS)
         val = r.randbytes(r.choice([0, 1, 8, 12, 13, 14, 268, 269]))
     elif kind == "block":
         num = r.choice(BLOCK_OPTS)
-        val = rc.block_bytes(r.choice([0, 1, 15, 16, 4095, 65535, 1048575]), r.chance(0.5), r.randrange(0, 7))
+        val = rc.block_bytes(r.choice([0, 1, 15, 16, 4095, 65535, 1048575, 1048575, 2 ** 28, 2 ** 60 - 1, 2 ** 60, 2 ** 68]),
+                             r.chance(0.5), r.randrange(0, 7))
     elif kind == "empty":
         num, val = 5, b""
     else:
